@@ -189,3 +189,32 @@ Proof.
   { split; [discriminate|]. split; [vm_compute; intuition discriminate|vm_compute; reflexivity]. }
   split; vm_compute; reflexivity.
 Qed.
+
+(* ---- the hypotheses as an executable test (run by the harness on every generated .discinfo object) *)
+Lemma line_okb_sound s : line_okb s = true -> text_line s.
+Proof.
+  unfold line_okb, text_line. intros H. apply andb_true_iff in H. destruct H as [H H3]. apply andb_true_iff in H. destruct H as [H1 H2].
+  split; [destruct s; [discriminate|discriminate]|]. split; [apply memc_false; apply negb_true_iff; exact H2|apply str_eqb_eq; exact H3].
+Qed.
+
+Lemma all_pint nums : forallb is_pint nums = true -> exists zs, nums = map PInt zs.
+Proof.
+  induction nums as [|v nums IH]; cbn [forallb]; [exists []; reflexivity|]. intros H. apply andb_true_iff in H. destruct H as [Hv Hn].
+  destruct v; try discriminate. destruct (IH Hn) as (zs & ->). exists (z :: zs). reflexivity.
+Qed.
+
+Theorem di_roundtrip_checked d text : di_applicableb d = true -> dump_di d = Ok text -> load_di text = Ok d.
+Proof.
+  destruct d as [ts de ar dn]. unfold di_applicableb. cbn [di_timestamp di_description di_arch di_disc_numbers].
+  destruct ts; try discriminate. destruct de; try discriminate. destruct ar; try discriminate. destruct dn; try discriminate.
+  intros H. repeat (apply andb_true_iff in H; destruct H as [H ?]).
+  apply di_roundtrip; try assumption.
+  - apply line_okb_sound. assumption.
+  - apply str_eqb_eq. assumption.
+  - apply line_okb_sound. assumption.
+  - match goal with Hn : (_ || _) = true |- _ => apply orb_true_iff in Hn; destruct Hn as [Hn|Hn];
+      [left; match type of Hn with (match ?nl with _ => _ end) = true => destruct nl as [|v [|w l']] end; try discriminate Hn;
+       destruct v; try discriminate Hn; apply str_eqb_eq in Hn; subst; reflexivity
+      |right; apply andb_true_iff in Hn; destruct Hn as [Hne Hall]; destruct (all_pint _ Hall) as (zs & ->); exists zs;
+       split; [intros ->; discriminate Hne|reflexivity]] end.
+Qed.
